@@ -82,7 +82,9 @@ def verify_function(qual, prop, program=None, reg=None, self_cls=None, tag=None,
     R = reg or REG
     rep = FuncReport(qual)
     P = program or frontend.Program()
-    c = R.contracts.get(qual + "@" + self_cls) if self_cls else None
+    c = R.contracts.get(qual + "#" + tag) if tag else None
+    if c is None:
+        c = R.contracts.get(qual + "@" + self_cls) if self_cls else None
     if c is None:
         c = R.contracts.get(qual)
     if c is None:
